@@ -78,5 +78,22 @@ def replay(case):
     want = (case['cls'], case['precision'], case['guard'], case['display'])
     if got != want:
         diffs.append(('arithmetic class', want, got))
-    rep = E.erecord
+    # the report names unused and overridden options (header lines), exactly those sets
+    try:
+        import io, contextlib
+        with contextlib.redirect_stdout(io.StringIO()):
+            E.count()
+        rep = E.report()
+    except AssertionError:
+        rep = None
+    if rep is not None:
+        def listed(prefix):
+            for l in rep.split('\n'):
+                if l.startswith(prefix):
+                    return sorted(l[len(prefix):].split(', '))
+            return []
+        if listed('\tUnused options: ') != sorted(case['unused']):
+            diffs.append(('report: Unused options line', sorted(case['unused']), listed('\tUnused options: ')))
+        if listed('\tOverridden options: ') != sorted(case['overridden']):
+            diffs.append(('report: Overridden options line', sorted(case['overridden']), listed('\tOverridden options: ')))
     return diffs, blt, cmd
